@@ -771,3 +771,35 @@ def written_derivatives(rep, rng, rounds, mode, prop):
                 rep.violation({"kind": "exception", "obligation": "derivatives of API-built expressions can be built", "witness": {"formula": label, "mode": mode,
                                                                                                                                 "error": repr(ex)[:300]}}, concrete=True)
     return checked, bad
+
+
+def alias_probe(call, x1, x2, ref_call, rtol=0.0):
+    """Call history with the caller's objects reused: `call` at an array, the SAME array updated in place, `call` again.
+    An earlier result must not change when a later call is made (output buffer reused), and the second result must be what
+    `ref_call` - an independent way to the same number(s) - gives at a fresh copy of the new point (something remembered by
+    reference to the caller's array).  Returns None or a description."""
+    x = np.array(x1, dtype=float)
+    with np.errstate(all="ignore"):
+        r1 = call(x)
+        keep1 = np.array(r1, dtype=float, copy=True)
+        x[:] = np.asarray(x2, dtype=float)
+        r2 = call(x)
+        keep2 = np.array(r2, dtype=float, copy=True)
+        after1 = np.array(r1, dtype=float)
+        want2 = np.array(ref_call(np.array(x2, dtype=float)), dtype=float)
+
+    def same(a, b):
+        if a.shape != b.shape:
+            return False
+        if rtol == 0.0:
+            return bool(np.array_equal(a, b, equal_nan=True))
+        return bool(np.allclose(a, b, rtol=rtol, atol=rtol, equal_nan=True))
+    if not same(after1, keep1):
+        return {"what": "a result handed out earlier changed when the callable was called again (shared output buffer)",
+                "first_point": np.asarray(x1).tolist(), "second_point": np.asarray(x2).tolist(),
+                "first_result_then": keep1.tolist(), "first_result_now": after1.tolist()}
+    if not same(keep2, want2):
+        return {"what": "after the caller's array was updated in place, the callable answered for the old point",
+                "first_point": np.asarray(x1).tolist(), "second_point": np.asarray(x2).tolist(),
+                "got": keep2.tolist(), "independent": want2.tolist()}
+    return None
